@@ -63,7 +63,10 @@ RCore(r) == [res |-> r.res, n |-> r.n, fs |-> r.fs, single |-> r.single, lo |-> 
 OnStep(s, e, ln) ==
   IF ~s.built THEN s
   ELSE IF e.t = "X"
-  THEN LET ids == CASE e.cop = "stuck" -> Enforce \cap {"C10"}
+  THEN LET ids == CASE e.cop = "stuck" ->
+                         \* nobody will ever wake the consumer; if an abort is what it is missing, the
+                         \* abort has been swallowed
+                         Enforce \cap ({"C10"} \cup (IF s.os.aborted THEN {"C11"} ELSE {}))
                     [] e.cop \in {"diverged", "maxsteps"} -> {}
                     [] OTHER -> Enforce \cap {"C08", "C10", "C11", "C20"}     \* producer panic / hang
        IN [s EXCEPT !.viol = s.viol \cup Bad(s, ln, ids, e.cop), !.cOK = FALSE]
